@@ -33,7 +33,7 @@ def ending_token_exists(iToken, lObjects, oOptions):
 
 
 def ending_token_should_exist(iToken, lObjects, oOptions):
-    return oOptions.inside_delimited_comment() and lObjects[iToken].get_value() == "/" and lObjects[iToken - 1].get_value().endswith("*")
+    return oOptions.inside_delimited_comment() and iToken > 0 and lObjects[iToken].get_value() == "/" and lObjects[iToken - 1].get_value().endswith("*")
 
 
 def replace_token_with_ending_token(iToken, lObjects, oOptions):
